@@ -109,7 +109,7 @@ theorem refines_step_num (r : Rec ρ) (op : Op ρ) (hinv : InvW r) (hc : op.Inte
     rfl
   | setOutMode m =>
     cases m with
-    | invalid => exact ⟨rfl, Out.numEq_refl _, hinv⟩
+    | invalid => refine ⟨?_, Out.numEq_refl _, hinv⟩; (simp [step, specStep, abs, splitFlds, setModeEnv]; rfl)
     | default => refine ⟨?_, Out.numEq_refl _, hinv⟩; (simp [step, specStep, abs, splitFlds, setModeEnv]; rfl)
     | csv sep => refine ⟨?_, Out.numEq_refl _, hinv⟩; (simp [step, specStep, abs, splitFlds, setModeEnv]; rfl)
 
